@@ -99,7 +99,13 @@ impl Check for RwaReal {
     type Cfg = Cfg;
     type Step = Step;
     fn id(&self) -> &'static str { "rwa_real" }
-    fn runs(&self, tier: Tier) -> u64 { if tier == Tier::Quick { 400 } else { 30_000 } }
+    fn runs(&self, tier: Tier) -> u64 {
+        if tier == Tier::Quick {
+            2000
+        } else {
+            30000
+        }
+    }
     fn components(&self) -> serde_json::Value { serde_json::json!({"real": ["RWA token wrapper", "rwa::compliance::storage (hooks, bound-token check)", "rwa::utils::token_binder", "identity_verifier + identity_registry_storage + claim_topics_and_issuers (no required topic)"], "stub": ["compliance Modules (scripted can_*, durable counters)", "NoClaims identity contract", "Wallet"]}) }
     fn clock_step(&self, n: u32) -> Option<Step> {
         Some(Step::Wait { n })
